@@ -14,10 +14,10 @@ Local Open Scope list_scope.
 Inductive reason : Type :=
 | RStatusOutdated      (* observedgeneration.go:24  ".status outdated" *)
 | RCondMissing         (* condition.go:35  "missing .status.conditions" *)
-| RCondMalformed       (* condition.go:38,45  "malformed" *)
-| RCondOutdated        (* condition.go:57  "outdated" *)
-| RCondWrongStatus     (* condition.go:63  "wrong status" *)
-| RCondNotReported     (* condition.go:65  "not reported" *)
+| RCondMalformed       (* condition.go:38,59  "malformed" *)
+| RCondOutdated        (* condition.go:51,71  "outdated" *)
+| RCondWrongStatus     (* condition.go:77  "wrong status" *)
+| RCondNotReported     (* condition.go:79  "not reported" *)
 | RFieldMissingA       (* fieldsequal.go:41 *)
 | RFieldMissingB       (* fieldsequal.go:45 *)
 | RFieldNotEqual       (* fieldsequal.go:49 *)
@@ -134,33 +134,55 @@ Definition p_og (p : prober) : prober :=
     | _ => p o
     end.
 
-(** ConditionProbe.probe (condition.go:23-66) *)
+(** ConditionProbe.probe (condition.go:23-80, after fix 9b2e4f3) *)
 Definition is_str (v : option json) (s : string) : bool :=
   match v with Some (JStr x) => String.eqb x s | _ => false end.
 
-Definition cond_outdated (kv : list (string * json)) (gen : Z) : bool :=   (* condition.go:52-56 *)
+Definition cond_outdated (kv : list (string * json)) (gen : Z) : bool :=   (* condition.go:48-50, 68-70 *)
   match nested_int64 (JObj kv) ["observedGeneration"] with
   | NFound z => negb (Z.eqb z gen)
   | _ => false
   end.
 
+(** One iteration of the pre-scan (condition.go:43-52): a map entry of the probed type that
+    declares an integer observedGeneration other than metadata.generation. Entries that are
+    not maps or have another type are skipped. *)
+Definition stale_entry (gen : Z) (t : string) (c : json) : bool :=
+  match c with
+  | JObj kv => is_str (assoc "type" kv) t && cond_outdated kv gen
+  | _ => false
+  end.
+
+(** The deciding loop (condition.go:55-79). *)
 Fixpoint cond_loop (gen : Z) (t s : string) (cs : list json) : option reason :=
   match cs with
-  | [] => Some RCondNotReported                                  (* :65 *)
+  | [] => Some RCondNotReported                                  (* :79 *)
   | JObj kv :: rest =>
-      if negb (is_str (assoc "type" kv) t) then cond_loop gen t s rest   (* :47-50 *)
-      else if cond_outdated kv gen then Some RCondOutdated               (* :52-57 *)
-      else if is_str (assoc "status" kv) s then None                     (* :59-61 *)
-      else Some RCondWrongStatus                                         (* :63 *)
-  | _ :: _ => Some RCondMalformed                                (* :42-46 *)
+      if negb (is_str (assoc "type" kv) t) then cond_loop gen t s rest   (* :62-65 *)
+      else if cond_outdated kv gen then Some RCondOutdated               (* :67-72 *)
+      else if is_str (assoc "status" kv) s then None                     (* :74-76 *)
+      else Some RCondWrongStatus                                         (* :77 *)
+  | _ :: _ => Some RCondMalformed                                (* :56-60 *)
   end.
 
 Definition cond_probe (t s : string) : prober :=
   fun o => single_msg
     match nested_field o ["status"; "conditions"] with
-    | NFound (JArr cs) => cond_loop (generation o) t s cs
+    | NFound (JArr cs) =>
+        if existsb (stale_entry (generation o) t) cs then Some RCondOutdated   (* :41-53 *)
+        else cond_loop (generation o) t s cs
     | NFound _ => Some RCondMalformed                            (* :37-39 *)
     | _ => Some RCondMissing                                     (* :34-36 *)
+    end.
+
+(** ConditionProbe.probe as it was before fix 9b2e4f3 (no pre-scan: the first entry of the
+    probed type decides). Kept only for the historical refutation in ProbeProofs.v. *)
+Definition condition_probe_v0 (t s : string) : prober :=
+  fun o => single_msg
+    match nested_field o ["status"; "conditions"] with
+    | NFound (JArr cs) => cond_loop (generation o) t s cs
+    | NFound _ => Some RCondMalformed
+    | _ => Some RCondMissing
     end.
 
 (** FieldsEqualProbe.probe (fieldsequal.go:25-52) *)
